@@ -285,4 +285,128 @@ theorem clay_add_records {s s0 s1 s' : State} {b : Body} {sec : RrSection} {recs
       | additional => exact absurd hsx hne
     | additional => cases hq
 
+
+/-! ### records -/
+
+theorem rchainC_one {s s' : State} {k : Nat} {m : CMode} {r : RRec} (hit : Item s' s.cursor k)
+    (hnm : NameIs s' s.cursor m r.owner)
+    (hf : BytesAt s'.octets (s.cursor + k) (u16be r.ty ++ u16be r.cls ++ u32be r.ttl))
+    (hlen : s.cursor + k + 10 ≤ s'.cursor)
+    (hb : be16 s'.octets (s.cursor + k + 8) = (s'.cursor - (s.cursor + k + 10)) % 65536)
+    (hle : s'.cursor ≤ 65535) :
+    RChainC s' [⟨s.cursor, k, s'.cursor - (s.cursor + k + 10), m, r⟩] s.cursor s'.cursor := by
+  refine ⟨rfl, ⟨hit, hnm, hf, ?_⟩, ?_⟩
+  · show be16 s'.octets (s.cursor + k + 8) = _
+    rw [hb, Nat.mod_eq_of_lt (by omega)]
+  · show s.cursor + k + 10 + (s'.cursor - (s.cursor + k + 10)) = s'.cursor
+    omega
+
+theorem bytesAt_three {o : Bytes} {p : Nat} {a b c : List UInt8} (h1 : BytesAt o p a)
+    (h2 : BytesAt o (p + a.length) b) (h3 : BytesAt o (p + a.length + b.length) c) :
+    BytesAt o p (a ++ b ++ c) :=
+  bytesAt_append_intro (bytesAt_append_intro h1 h2) (by rw [List.length_append, ← Nat.add_assoc]; exact h3)
+
+/-- one record, with content -/
+theorem addRr_itemC (hint : Hint) (owner : WName) (ty cls ttl : Nat) (rd : List UInt8) (s s' : State)
+    (hw : WInv s) (hwf : owner.WF) (hh : HintOK s hint owner)
+    (h : addRr hint owner ty cls ttl rd s = (.ok (), s')) (hle : s'.cursor ≤ 65535) :
+    ∃ it : RItC, RChainC s' [it] s.cursor s'.cursor ∧ it.r = ⟨owner, ty, cls, ttl, rd⟩ ∧ it.m = s.mode := by
+  obtain ⟨k, hit, hlen, hb, ⟨t1, t2, t3⟩, _, hnm⟩ := addRr_item hint owner ty cls ttl rd s s' hw hwf hh h
+  have hl2 : ∀ x, (u16be x).length = 2 := fun _ => rfl
+  refine ⟨⟨s.cursor, k, s'.cursor - (s.cursor + k + 10), s.mode, ⟨owner, ty, cls, ttl, rd⟩⟩, ?_, rfl, rfl⟩
+  exact rchainC_one (r := ⟨owner, ty, cls, ttl, rd⟩) hit hnm
+    (bytesAt_three t1 (by rw [hl2]; exact t2) (by rw [hl2, hl2]; exact t3)) hlen hb hle
+
+/-- **`add_*_rr` keeps the layout**, and the record is the one given -/
+theorem clay_addRrOp (sec : RrSection) (hint : Hint) (owner : WName) (ty cls ttl : Nat) (rd : List UInt8)
+    (s s' : State) {b : Body} (hI : I s) (h : CLay s b) (hwf : owner.WF) (hh : HintOK s hint owner)
+    (hok : addRrOp sec hint owner ty cls ttl rd s = (.ok (), s')) :
+    CLay s' (b.add sec [⟨owner, ty, cls, ttlFrom ttl, rd⟩]) := by
+  obtain ⟨s1, s2, h1, h2, _, hs'⟩ := addRrOp_ok_inv sec hint owner ty cls ttl rd s s' hok
+  obtain ⟨c1, c2, c3, c4, c5, c6, c7⟩ := changeSection_spec sec s
+  have hfr1 := frame_changeSection sec s
+  rw [h1] at hfr1 c2 c3 c4 c5 c6 c7
+  simp only at hfr1 c2 c3 c4 c5 c6 c7
+  have w1 : WInv s1 := winv_ext hI.winv hfr1 c7 c3 c4 c5
+  have hh1 : HintOK s1 hint owner := hintOK_ext hh hfr1 c3 c4 c5 c6
+  have e2 : Ext s1 s2 := by
+    have := frame_addRr hint owner ty cls (ttlFrom ttl) rd s1
+    rw [h2] at this; exact this
+  have hsect : s2.sect = toSect sec := by
+    have := (changeSection_ok_inv sec s s1 h1).1
+    have hk := keepsSect_addRr hint owner ty cls (ttlFrom ttl) rd s1
+    rw [h2] at hk
+    rw [hk, this]
+  refine clay_add_records (recs := [⟨owner, ty, cls, ttlFrom ttl, rd⟩]) h h1 (Ext.trans hfr1 e2) ?_ hs' hsect
+    hI.inv.rr_hi
+  intro hle
+  obtain ⟨it, hch, hr, _⟩ := addRr_itemC hint owner ty cls (ttlFrom ttl) rd s1 s2 w1 hwf hh1 h2 hle
+  rw [c6] at hch
+  exact ⟨[it], hch, by simp [hr]⟩
+
+/-- an RRset, with content: one item per RDATA -/
+theorem addRrset_itemsC {track : Prop} {s0 : State} (owner : WName) (ty cls ttl : Nat) (hwf : owner.WF) :
+    ∀ (rds : List (List UInt8)) (hint : Hint) (n : Nat) (names : List WName) (on0 : Option WName)
+      (s s' : State) (cnt : Nat),
+      (∃ loc o, RecSt track s0 s names loc o on0 ∧ HintOK s hint owner) →
+      addRrset hint owner ty cls ttl rds n s = (.ok cnt, s') → s'.cursor ≤ 65535 →
+      ∃ its, RChainC s' its s.cursor s'.cursor ∧
+        its.map (·.r) = rds.map (fun rd => (⟨owner, ty, cls, ttl, rd⟩ : RRec)) := by
+  intro rds
+  induction rds with
+  | nil =>
+    intro hint n names on0 s s' cnt _ h _
+    simp only [addRrset, M.pure_apply] at h
+    cases h
+    exact ⟨[], rfl, rfl⟩
+  | cons rd rds ih =>
+    intro hint n names on0 s s' cnt ⟨loc, o, hrec, hh⟩ h hle
+    unfold addRrset at h
+    obtain ⟨_, s1, h1, h2⟩ := M.bind_ok_inv h
+    obtain ⟨_, hok⟩ := sp_addRr (track := track) (s0 := s0) (names := names) hint owner ty cls ttl rd hwf s
+      ⟨loc, o, on0, hrec, hh⟩
+    obtain ⟨p, hrec1⟩ := hok () s1 h1
+    have e2 : Ext s1 s' := by
+      have := frame_addRrset .mostRecentOwner owner ty cls ttl rds (n + 1) s1
+      rw [h2] at this; exact this
+    have hle1 : s1.cursor ≤ 65535 := by have := e2.cur; omega
+    obtain ⟨it, hch1, hr1, _⟩ := addRr_itemC hint owner ty cls ttl rd s s1 hrec.winv hwf hh h1 hle1
+    obtain ⟨its, hch, hl⟩ := ih .mostRecentOwner (n + 1) (names ++ rdataNames cls ty rd) (some owner) s1 s' cnt
+      ⟨_, p, hrec1, recSt_ownerHint hrec1⟩ h2 hle
+    exact ⟨it :: its, rchainC_append (rchainC_ext e2 (Nat.le_refl _) hch1) hch, by simp [hr1, hl]⟩
+
+/-- **`add_*_rrset` keeps the layout**, and the records are those given -/
+theorem clay_addRrsetOp (sec : RrSection) (hint : Hint) (owner : WName) (ty cls ttl : Nat)
+    (rds : List (List UInt8)) (s s' : State) {b : Body} (hI : I s) (h : CLay s b) (hwf : owner.WF)
+    (hh : HintOK s hint owner)
+    (hok : addRrsetOp sec hint owner ty cls ttl rds s = (.ok (), s')) :
+    CLay s' (b.add sec (rds.map fun rd => ⟨owner, ty, cls, ttlFrom ttl, rd⟩)) := by
+  obtain ⟨s1, s2, n, h1, h2, _, hs'⟩ := addRrsetOp_ok_inv sec hint owner ty cls ttl rds s s' hok
+  obtain ⟨c1, c2, c3, c4, c5, c6, c7⟩ := changeSection_spec sec s
+  have hfr1 := frame_changeSection sec s
+  have hgp := changeSection_gPtrs sec s
+  rw [h1] at hfr1 c2 c3 c4 c5 c6 c7 hgp
+  simp only at hfr1 c2 c3 c4 c5 c6 c7 hgp
+  have w1 : WInv s1 := winv_ext hI.winv hfr1 c7 c3 c4 c5
+  have hh1 : HintOK s1 hint owner := hintOK_ext hh hfr1 c3 c4 c5 c6
+  have r0 := recSt_init hI.winv hI.log
+  have hr1 : RecSt (s.hv = some []) s s1 [] [] s.mostRecentOwner none :=
+    recSt_step r0 hfr1 w1 c2 c5 c4 c3 hgp
+  have hn := addRrset_count owner ty cls (ttlFrom ttl) rds hint 0 s1 s2 n h2
+  have e2 : Ext s1 s2 := by
+    have := frame_addRrset hint owner ty cls (ttlFrom ttl) rds 0 s1
+    rw [h2] at this; exact this
+  have hsect : s2.sect = toSect sec := by
+    have := (changeSection_ok_inv sec s s1 h1).1
+    have hk := keepsSect_addRrset owner ty cls (ttlFrom ttl) rds hint 0 s1
+    rw [h2] at hk
+    rw [hk, this]
+  refine clay_add_records (recs := rds.map fun rd => ⟨owner, ty, cls, ttlFrom ttl, rd⟩) h h1 (Ext.trans hfr1 e2)
+    ?_ (by rw [hs', List.length_map, hn]; simp) hsect hI.inv.rr_hi
+  intro hle
+  obtain ⟨its, hch, hl⟩ := addRrset_itemsC (track := s.hv = some []) (s0 := s) owner ty cls (ttlFrom ttl) hwf rds
+    hint 0 [] none s1 s2 n ⟨[], _, hr1, hh1⟩ h2 hle
+  rw [c6] at hch
+  exact ⟨its, hch, hl⟩
+
 end QV.Writer
